@@ -6,6 +6,8 @@
      * the interpreter  validate : schema -> pyval -> outcome pyval.
    Exceptions are classified: EInvalid is voluptuous' Invalid family (caught by Any, by sequence and mapping
    validation, turned into voluptuous.Error by validate_config); everything else ESCAPES those handlers.
+   Range and Length turn the TypeError of an unorderable / unsized value into Invalid (as the vendored voluptuous
+   does since fix 9e7ee91).
    No proofs here (the model must still run when a proof breaks). *)
 From Coq Require Import ZArith QArith List Bool String Ascii.
 From Verif.Lib Require Import QRound.
@@ -37,6 +39,7 @@ Inductive pyval :=
 
 Definition tag_callable : Z := 1.
 Definition tag_Number : Z := 2.
+Definition tag_Real : Z := 3.      (* numbers.Real instances that are not bool/int/float (numpy scalars ...) *)
 Definition tag_arity (n : Z) : Z := 100 + n.
 
 Inductive num := NQ (q : Q) | NInf (neg : bool).
@@ -159,7 +162,7 @@ Definition is_config_or_validation_error (e : exc) : bool :=
 (* ------------------------------------------------------------------------------------------------ *)
 (* schemas                                                                                           *)
 (* ------------------------------------------------------------------------------------------------ *)
-Inductive pytype := TBool | TInt | TFloat | TStr | TNumber | TList | TTuple | TDict | TObject | TClass (c : Z).
+Inductive pytype := TBool | TInt | TFloat | TStr | TNumber | TReal | TList | TTuple | TDict | TObject | TClass (c : Z).
 Inductive bnd := BNone | BQ (q : Q) | BPosInf.
 Inductive kind := KList | KTuple.
 Inductive post := PostId | PostSwap.    (* RealInterval/IntegerRange.__init__ put start <= stop *)
@@ -203,6 +206,8 @@ Definition has_type (t : pytype) (v : pyval) : bool :=
   | TFloat, (PFloat _ | PInf _) => true
   | TNumber, (PBool _ | PInt _ | PFloat _ | PInf _) => true
   | TNumber, PObj tags _ => existsb (Z.eqb tag_Number) tags
+  | TReal, (PBool _ | PInt _ | PFloat _ | PInf _) => true
+  | TReal, PObj tags _ => existsb (Z.eqb tag_Real) tags
   | TStr, PStr _ => true
   | TList, PList _ => true
   | TTuple, PTuple _ => true
@@ -326,12 +331,12 @@ Section Validate.
     | SLit l => if py_eqb v l then Ret v else Raise EInvalid
     | SRange lo hi =>
         match num_of v with
-        | None => Raise EType                         (* 'a' >= 0 : TypeError, not caught by voluptuous *)
+        | None => Raise EInvalid       (* 'a' >= 0 : TypeError, which Range reports as RangeInvalid (fix 9e7ee91) *)
         | Some n => if bnd_lo_ok lo n && bnd_hi_ok hi n then Ret v else Raise EInvalid
         end
     | SLength lo hi =>
         match py_len v with
-        | None => Raise EType                         (* len(5) : TypeError *)
+        | None => Raise EInvalid       (* len(5) : TypeError, which Length reports as RangeInvalid (fix 9e7ee91) *)
         | Some n => if opt_leb lo n && opt_geb hi n then Ret v else Raise EInvalid
         end
     | SNotIn l => if existsb (py_eqb v) l then Raise EInvalid else Ret v
@@ -521,7 +526,7 @@ Definition init_config (orc : Z -> pyval -> outcome pyval) (s : schema) (chain :
 (* ------------------------------------------------------------------------------------------------ *)
 Definition pytype_eqb (a b : pytype) : bool :=
   match a, b with
-  | TBool, TBool | TInt, TInt | TFloat, TFloat | TStr, TStr | TNumber, TNumber | TList, TList
+  | TBool, TBool | TInt, TInt | TFloat, TFloat | TStr, TStr | TNumber, TNumber | TReal, TReal | TList, TList
   | TTuple, TTuple | TDict, TDict | TObject, TObject => true
   | TClass x, TClass y => Z.eqb x y
   | _, _ => false
